@@ -74,6 +74,15 @@ func (s *c15Server) serve(conn io.ReadWriteCloser) {
 				k = len(s.caps) - 1
 			}
 			caps := s.caps[k]
+			if len(caps) == 1 && caps[0] == c15HeloOnly {
+				// a server from before ESMTP: EHLO is not implemented, the
+				// client falls back to HELO (answered 250 below) and has no
+				// extensions to count on
+				s.last = nil
+				s.mu.Unlock()
+				io.WriteString(conn, "502 5.5.1 EHLO not implemented\r\n")
+				continue
+			}
 			s.last = caps
 			s.mu.Unlock()
 			// the reply lists exactly the drawn capabilities - possibly none,
@@ -104,6 +113,10 @@ func (s *c15Server) received() int {
 	defer s.mu.Unlock()
 	return len(s.in)
 }
+
+// c15HeloOnly as the only entry of a capability list: that EHLO is refused
+// with 502 (HELO works).
+const c15HeloOnly = "!HELO-ONLY"
 
 var c15KeywordExt = map[string]string{"BODY": "8BITMIME", "SIZE": "SIZE", "REQUIRETLS": "REQUIRETLS", "SMTPUTF8": "SMTPUTF8", "RET": "DSN", "ENVID": "DSN",
 	"NOTIFY": "DSN", "ORCPT": "DSN", "AUTH": "AUTH", "RRVS": "RRVS"}
@@ -181,6 +194,7 @@ func c15Run(c c15Case) Verdict {
 	<-srv.done
 
 	needHello := true
+	heloFallback := false
 	for i, call := range c.Calls {
 		res := results[i]
 		args := []string{call.Name, call.Addr, call.Ret, call.EnvID, call.OType, call.ORcpt}
@@ -210,6 +224,11 @@ func c15Run(c c15Case) Verdict {
 			if strings.HasPrefix(up, "EHLO") || strings.HasPrefix(up, "HELO") {
 				lines = lines[1:]
 				needHello = false
+				// EHLO refused: the fallback to HELO is part of the greeting
+				if len(lines) > 0 && strings.HasPrefix(up, "EHLO") && strings.HasPrefix(strings.ToUpper(string(lines[0])), "HELO") {
+					lines = lines[1:]
+					heloFallback = true
+				}
 			}
 		}
 		if call.Op == "hello" {
@@ -277,6 +296,9 @@ func c15Run(c c15Case) Verdict {
 	if differ {
 		v.Classes = append(v.Classes, "second_ehlo_differs")
 	}
+	if heloFallback {
+		v.Classes = append(v.Classes, "ehlo_refused_helo_fallback")
+	}
 	_ = absent
 	return v
 }
@@ -285,8 +307,11 @@ var c15Exts = []string{"8BITMIME", "SIZE 1000", "DSN", "SMTPUTF8", "REQUIRETLS",
 
 func c15GenCaps(t *rapid.T) []string {
 	var out []string
-	if rapid.IntRange(0, 4).Draw(t, "nocaps") == 0 {
+	switch rapid.IntRange(0, 9).Draw(t, "nocaps") {
+	case 0, 1:
 		return nil // a bare "250 host" reply
+	case 2:
+		return []string{c15HeloOnly} // EHLO refused, HELO accepted
 	}
 	for _, e := range c15Exts {
 		if rapid.Bool().Draw(t, "cap") {
@@ -299,7 +324,8 @@ func c15GenCaps(t *rapid.T) []string {
 var c15Hostile []string
 
 func init() {
-	alpha := []string{"\r", "\n", "\x00", " ", "<", ">", "a"}
+	// (the quote and the backslash are what an address scanner treats specially)
+	alpha := []string{"\r", "\n", "\x00", " ", "<", ">", "a", "\"", "\\"}
 	c15Hostile = []string{""}
 	for l := 1; l <= 3; l++ {
 		var rec func(cur string, d int)
@@ -396,13 +422,13 @@ func init() {
 
 func TestC15(t *testing.T) {
 	registerAll()
-	st.Rule = "cases = (capability subsets advertised by the 1st/2nd/3rd EHLO reply of a scripted server, sequence of Client calls Hello/Mail/Rcpt/Verify/Reset/Noop with option subsets, hostile strings over {CR,LF,NUL,SP,<,>,a} embedded in string arguments); exhaustive part: every hostile string up to the length bound in every string-typed argument; oracle on the octets the server received per call; non-trivial = hostile string present OR the second EHLO reply differs from the first; distinct = hash of the whole case"
+	st.Rule = "cases = (capability subsets advertised by the 1st/2nd/3rd EHLO reply of a scripted server, sequence of Client calls Hello/Mail/Rcpt/Verify/Reset/Noop with option subsets, hostile strings over {CR,LF,NUL,SP,<,>,a,\",\\} embedded in string arguments); exhaustive part: every hostile string up to the length bound in every string-typed argument; oracle on the octets the server received per call; non-trivial = hostile string present OR the second EHLO reply differs from the first; distinct = hash of the whole case"
 	if !regress(t, "C15") {
 		return
 	}
 	// exhaustive: every hostile string in every string-typed argument position
 	maxLen := pickTier(3, 4)
-	alpha := []string{"\r", "\n", "\x00", " ", "<", ">", "a"}
+	alpha := []string{"\r", "\n", "\x00", " ", "<", ">", "a", "\"", "\\"}
 	var words []string
 	var rec func(cur string, d int)
 	rec = func(cur string, d int) {
